@@ -197,6 +197,8 @@ def extra_checks(ctx):
     return {"coverage": {"lineages_with_division": n_div, "lineage_cells_checked": cells,
                          "lineage_replays": len(rep), "lineage_replay_cells": sum(len(r["cells"]) for c, r in rep), "lineage_replays_with_division": sum(1 for c, r in rep if len(r["cells"]) > 1),
                          "lineage_replay_uniforms": sum(max(r.get("pos", 0), 0) for c, r in rep),
+                         "lineage_replays_with_own_splitter_for_division_events": sum(1 for c, r in rep if c.get("splitter_ev")),
+                         "of_which_divided_while_the_division_rules_cannot_fire": sum(1 for c, r in rep if c.get("splitter_ev") and c.get("rules_cannot_fire") and len(r["cells"]) > 1),
                          "single_cell_replays": len(single), "single_cell_divided": sum(1 for c, r in single if r.get("divided", -1) >= 0),
                          "single_cell_dead": sum(1 for c, r in single if r.get("dead", -1) >= 0), "single_cell_raised": sum(1 for c, r in single if "raised" in r),
                          "single_cell_born_off_grid": sum(1 for c, r in single if c["cell"]["t0"] != c["times"][0]),
